@@ -198,11 +198,11 @@ func FinishSpeculativeLength(b []byte, pos int) []byte {
 		if cap(b) >= pos+msiz+mlen {
 			b = b[:pos+msiz+mlen]
 		} else {
-			newSlice := make([]byte, pos+msiz+mlen)
-			copy(newSlice, b)
-			b = newSlice
+			// let append choose the new capacity: an exact-size slice is full again at the
+			// next enclosing message, which then copies the whole buffer once more
+			b = append(b, "\x00\x00\x00\x00\x00\x00\x00\x00\x00\x00"[:msiz-speculativeLength]...)
 		}
-		copy(b[pos+msiz:], b[pos+speculativeLength:])
+		copy(b[pos+msiz:], b[pos+speculativeLength:pos+speculativeLength+mlen])
 	}
 	protowire.AppendVarint(b[:pos], uint64(mlen))
 	return b
